@@ -146,6 +146,9 @@ type doer struct{}
 
 func (doer) Do() {}
 
+// sparse: containers are allocated but hold nothing (an empty slice or map is not a nil one)
+var sparse bool
+
 func fill(v reflect.Value, c *int) {
 	*c++
 	switch v.Kind() {
@@ -160,6 +163,10 @@ func fill(v reflect.Value, c *int) {
 			}
 		}
 	case reflect.Slice:
+		if sparse {
+			v.Set(reflect.MakeSlice(v.Type(), 0, 0))
+			return
+		}
 		s := reflect.MakeSlice(v.Type(), 2, 2)
 		fill(s.Index(0), c)
 		fill(s.Index(1), c)
@@ -170,6 +177,10 @@ func fill(v reflect.Value, c *int) {
 		}
 	case reflect.Map:
 		m := reflect.MakeMap(v.Type())
+		if sparse {
+			v.Set(m)
+			return
+		}
 		k := reflect.New(v.Type().Key()).Elem()
 		fill(k, c)
 		e := reflect.New(v.Type().Elem()).Elem()
@@ -233,10 +244,13 @@ func check(tag string, partialPtr any, origin any, omitted map[string]bool, repl
 			fmt.Printf("%s V FIELD-TAG %s %q %q\n", tag, g.Name, g.Tag, w.Tag)
 		}
 	}
-	// DeepCopyAs
+	// DeepCopyAs: on a value whose containers are allocated but empty, then on a filled one
+	for _, sp := range []bool{true, false} {
+	sparse = sp
 	src := reflect.New(pt)
 	n := 0
 	fill(src.Elem(), &n)
+	sparse = false
 	out := src.MethodByName("DeepCopyAs").Call(nil)[0]
 	if out.IsNil() {
 		fmt.Println(tag, "V COPY-NIL")
@@ -255,8 +269,9 @@ func check(tag string, partialPtr any, origin any, omitted map[string]bool, repl
 			continue
 		}
 		if !reflect.DeepEqual(of.Interface(), src.Elem().FieldByName(name).Interface()) {
-			fmt.Println(tag, "V RETAINED-NOT-EQUAL", name)
+			fmt.Println(tag, "V RETAINED-NOT-EQUAL", name, map[bool]string{true: "(containers allocated but empty)", false: ""}[sp])
 		}
+	}
 	}
 	if r := reflect.Zero(reflect.PointerTo(pt)).MethodByName("DeepCopyAs").Call(nil)[0]; !r.IsNil() {
 		fmt.Println(tag, "V NIL-NOT-NIL")
@@ -638,10 +653,10 @@ func partialBatch(cases []Case) []string {
 func init() {
 	register(&Property{ID: "C18", Streams: []*Stream{
 		{
-			Name: "origins", Quick: 300, Thorough: 3000, New: func() Case { return &partialCase{} },
+			Name: "origins", Quick: 500, Thorough: 4000, New: func() Case { return &partialCase{} },
 			Gen:      func(r *Rng, i int) Case { return genPartial(r) },
 			BatchRun: partialBatch, ShrinkBudget: 25, MaxShrinks: 6,
-			Rule: "origin structs in a second package with 1–6 fields over a menu of 18 types (scalars, slices, maps, arrays, pointers, named types of the origin's package, of another module package and of time, error, any, a defined interface) and 8 tags (dots, commas, brackets, non-ASCII, %v, @x), every combination of omit tags and sometimes a replace tag (a third of them naming a field that is also omitted); `type x origin.T` generated with the real generator (100 per Execute), compiled, and a probe reflecting over the generated struct vs the origin (names, order, types, tags) and running DeepCopyAs on a filled value and on nil; compared with the model: field list as name / printed type / tag",
+			Rule: "origin structs in a second package with 1–6 fields over a menu of 18 types (scalars, slices, maps, arrays, pointers, named types of the origin's package, of another module package and of time, error, any, a defined interface) and 8 tags (dots, commas, brackets, non-ASCII, %v, @x), every combination of omit tags and sometimes a replace tag (a third of them naming a field that is also omitted); `type x origin.T` generated with the real generator (100 per Execute), compiled, and a probe reflecting over the generated struct vs the origin (names, order, types, tags) and running DeepCopyAs on a value whose containers are allocated but empty, on a filled value and on nil; compared with the model: field list as name / printed type / tag",
 		},
 		{
 			Name: "rejections", New: func() Case { return &partialCase{} },
